@@ -285,6 +285,16 @@ func applyEdits(ps *pkgState, w *workload, s saveStep) {
 	}
 }
 
+// treeHashes fingerprints the subject's files (Syntax order) so that a save's effect on them can
+// be seen.
+func treeHashes(ps *pkgState) []string {
+	out := make([]string, len(ps.pkg.Syntax))
+	for i, f := range ps.pkg.Syntax {
+		out[i] = dump.Hash(f, dump.Options{})
+	}
+	return out
+}
+
 // twinPrint is the reference "import-managed print of that file": a fresh restorer per file.
 func twinPrint(f *dst.File, res resolver.RestorerResolver) ([]byte, error) {
 	var buf bytes.Buffer
@@ -455,6 +465,7 @@ func Run(run *core.Run) {
 		}
 		rw := &faults.Pkg{Inner: faults.NameResolver(w.resKind, m), Plan: plan}
 		var serr error
+		subjBefore := treeHashes(subj)
 		pi := core.Catch(func() { serr = subj.pkg.VerifSave(rw, disk.WriteFile) })
 		// everything below looks at one consistent copy of the disk taken when Save returned
 		dv := disk.View()
@@ -567,9 +578,15 @@ func Run(run *core.Run) {
 				run.Fail("c20/fault/error-not-wrapped", "resolver", "save#%d: Save returned %q, which does not wrap the resolver failure", si, serr)
 				return
 			}
-			if len(journal) != expectFailAt {
-				run.Fail("c20/fault/later-file-written", "", "save#%d: resolver failed at Syntax[%d]; expected exactly %d writes before it, journal has %d: %v", si, expectFailAt, expectFailAt, len(journal), journalPaths(journal))
+			// C20 forbids writing the failing file or a later one; it does not demand that the files
+			// before it are already on disk (an implementation that prints everything before it
+			// writes anything is as good). The journal is an in-order prefix by (a).
+			if len(journal) > expectFailAt {
+				run.Fail("c20/fault/later-file-written", "", "save#%d: resolver failed at Syntax[%d]; at most the %d files before it may be written, journal has %d: %v", si, expectFailAt, expectFailAt, len(journal), journalPaths(journal))
 				return
+			}
+			if len(journal) < expectFailAt {
+				run.Count("resolver-failure-earlier-files-not-written")
 			}
 			// keep the twin in step: files before the failure were restored
 			for p := 0; p < expectFailAt; p++ {
@@ -606,8 +623,19 @@ func Run(run *core.Run) {
 			}
 			run.Count("complete-saves")
 		}
-		// files the subject restored beyond what the twin printed (after a disk error the
-		// implementation may or may not go on): printing is idempotent, so nothing to do.
+		// Which files a FAILING save prints beyond the one that fails is the implementation's
+		// business (stop at the failure, go on after a write error, print everything before writing
+		// anything). Printing is idempotent but not without effect on the tree (import management
+		// rewrites the file's import declarations, e.g. `_ "fmt"` becomes `"fmt"` once fmt is used,
+		// and is dropped, not restored, when the use goes away later). So the twin prints exactly
+		// the files whose subject tree this save changed and that it has not printed yet.
+		subjAfter := treeHashes(subj)
+		for pos := range w.order {
+			if _, printed := twinBytes[pos]; !printed && subjAfter[pos] != subjBefore[pos] {
+				printTwin(pos)
+				run.Count("twin-follows-subject-print")
+			}
+		}
 	}
 	final := disk.View()
 	// --- (f) after the last (fault-free) save the disk holds the twin's print of every file
@@ -754,6 +782,7 @@ func runReal(run *core.Run, w *workload) {
 		}
 		rw := &faults.Pkg{Inner: faults.NameResolver(w.resKind, tr), Plan: plan}
 		var serr error
+		subjBefore := treeHashes(subj)
 		if pi := core.Catch(func() { serr = subj.pkg.SaveWithResolver(rw) }); pi != nil {
 			run.Fail("c20/save/panic", pi.Sig(), "SaveWithResolver panicked: %s", pi.Value)
 			return
@@ -807,6 +836,11 @@ func runReal(run *core.Run, w *workload) {
 				run.Fail("c20/write/foreign-path", "real-missing", "save#%d: %q disappeared", si, p)
 				return
 			}
+			if got != b && plan != nil && got == before[p] {
+				// a file before the failing one that was not written at all: allowed (see (d))
+				run.Count("resolver-failure-earlier-files-not-written")
+				continue
+			}
 			if got != b {
 				rel := strings.TrimPrefix(p, root)
 				cls := "c20/write/content"
@@ -815,6 +849,14 @@ func runReal(run *core.Run, w *workload) {
 				}
 				run.Fail(cls, "real", "save#%d: %q on disk differs from expectation:\n--- disk\n%s\n--- expected\n%s", si, rel, got, b)
 				return
+			}
+		}
+		// the twin prints the files a failing save printed beyond the failing one (see Run)
+		subjAfter := treeHashes(subj)
+		for pos := failAt; pos < len(w.order); pos++ {
+			if subjAfter[pos] != subjBefore[pos] {
+				twinPrint(twin.pkg.Syntax[pos], faults.NameResolver(w.resKind, tr))
+				run.Count("twin-follows-subject-print")
 			}
 		}
 	}
